@@ -19,7 +19,10 @@
      - top-level lines are otherwise unconstrained (doc_loop skips INDENT tokens);
      - META fields: first field INDENT count il > 0, further fields >= il; the line after the META block (if it carries an INDENT
        at all) has a count < il and is not the separator.
-   Layouts outside the class that change the tree are refuted in Rt/TokLenientEx.v.  The canonical layout (counts 2*depth, no blank
+   The class is SUFFICIENT, not necessary: two accepted layouts outside it are shown in Rt/TokLenientEx.v (children indented less than
+   their header when nothing follows; a column-0 comment directly after a SECTION header).  Layouts outside the class that change the
+   tree are refuted there.  Main results: parse_core2_doc_len, lenient_layouts_converge, lenient_layouts_same_canonical,
+   parse_core2_doc_canonical (= TokRound2.parse_core2_doc, without its `tail <> []`), doc2_sh_len_canonical, layout_ok_canonical.  The canonical layout (counts 2*depth, no blank
    line, END present, lists laid out by `ml`) is an instance: doc2_sh_len (canonical_lay ml d) = doc2_sh ml. *)
 From OV Require Import Base.Strs Lex.Lexer Syn.Ast Syn.Parser Rt.TokRound Rt.TokRound2.
 From Coq Require Import Lia.
